@@ -4,11 +4,10 @@
 patch=$1; tier=$2; shift 2
 cd /repo || exit 2
 if [ -n "$(git status --porcelain)" ]; then echo "/repo not clean"; exit 2; fi
-if ! git apply --3way "$patch" 2>/tmp/apply.err && ! git apply "$patch" 2>>/tmp/apply.err; then echo "PATCH DOES NOT APPLY: $patch"; cat /tmp/apply.err; git checkout -q -- . ; git reset -q; exit 3; fi
-git reset -q
+if ! git apply "$patch" 2>/tmp/apply.err; then echo "PATCH DOES NOT APPLY: $patch"; head -3 /tmp/apply.err; git checkout -q HEAD -- . ; exit 3; fi
 cd /verif
 for p in "$@"; do
-  out=$(./check $p --tier $tier --no-evidence 2>&1); rc=$?
-  echo "== $p rc=$rc $(echo "$out" | grep -c '^VIOLATION') violation lines"; echo "$out" | grep -A2 '^VIOLATION' | head -8; echo "$out" | tail -1
+  out=$(timeout 1800 ./check $p --tier $tier --no-evidence 2>&1); rc=$?
+  echo "== $p rc=$rc $(echo "$out" | grep -c '^VIOLATION') violation lines"; echo "$out" | grep -A2 '^VIOLATION' | head -8 | cut -c1-400; echo "$out" | tail -1 | cut -c1-300
 done
-git -C /repo checkout -q -- . ; git -C /repo clean -fdq pytableaux
+git -C /repo checkout -q HEAD -- . ; git -C /repo clean -fdq pytableaux
